@@ -519,7 +519,24 @@ impl Stream for SStream {
             _ => Poll::Pending,
         }
     }
+    /// Streams whose id is 0 mod 3 know their length exactly (like `stream::iter`), those with 1 mod 3
+    /// only an upper bound, the others nothing (the default hint): adapters that consult `size_hint`
+    /// see all three kinds of source, including exhausted ones reporting `(0, Some(0))`.
+    fn size_hint(&self) -> (usize, Option<usize>) {
+        let left = items_left(self.0);
+        match self.0 % 3 {
+            0 => (left, Some(left)),
+            1 => (0, Some(left)),
+            _ => (0, None),
+        }
+    }
 }
+
+/// how many items child `c` still has in its script
+pub fn items_left(c: usize) -> usize {
+    CTX.with(|ctx| ctx.borrow().scripts.get(c).map(|s| s.iter().filter(|st| matches!(st.res, Res::Item(_))).count()).unwrap_or(0))
+}
+
 impl Drop for SStream {
     fn drop(&mut self) {
         log_child_drop(self.0);
